@@ -135,16 +135,6 @@ def finitely_many_special(basis):
     return all(finitely_many(basis, fam) for fam in FAMILIES)
 
 
-def finitely_many_witness(basis, family, extra=3):
-    """Same question answered on a much longer member (monotonicity of the chain):
-    used to cross-check the choice |b| + 1."""
-    basis = [tuple(b) for b in basis]
-    for s in orientations(family):
-        if not any(S.contains(member(family, s, len(b) + 1 + extra), b) for b in basis):
-            return False
-    return True
-
-
 def simple_extensions(m):
     """All simple one-point extensions of the two ^-shaped wedge alternations with
     2m points, classified geometrically: 'centre' = the new point lies horizontally
